@@ -411,4 +411,61 @@ def PaddingOK (cfg : Cfg) (s : State) : Prop :=
 
 instance (cfg : Cfg) (s : State) : Decidable (PaddingOK cfg s) := by unfold PaddingOK; infer_instance
 
+/-! ### the generators (C10) -/
+
+/-- `jnp.less(jnp.tile(jnp.arange(max_num_ops), (num_jobs, 1)), num_ops_per_job[:, None])[j, k]` -/
+def genMask (numOps : List Int) (j k : Nat) : Bool := decide ((k : Int) < numOps.getD j 0)
+
+/-- `jnp.where(mask, draw, -1)` as a `J × O` array -/
+def genPad (cfg : Cfg) (draw : List (List Int)) (numOps : List Int) : List (List Int) :=
+  (List.range cfg.J).map fun j => (List.range cfg.O).map fun k =>
+    if genMask numOps j k then at2 draw (-1) j k else -1
+
+/-- `RandomGenerator.__call__` followed by the mask `reset` adds; the three `randint` arrays are the draws:
+`midDraw` (`J × O`, machine ids), `durDraw` (`J × O`, durations), `numOps` (`J`, ops per job) -/
+def generate (cfg : Cfg) (midDraw durDraw : List (List Int)) (numOps : List Int) : State :=
+  initState cfg (genPad cfg midDraw numOps) (genPad cfg durDraw numOps)
+
+/-- the support of the three draws: `randint(0, M)`, `randint(1, D + 1)`, `randint(1, O + 1)` -/
+def validGenDraw (cfg : Cfg) (midDraw durDraw : List (List Int)) (numOps : List Int) : Prop :=
+  (∀ j, j < cfg.J → ∀ k, k < cfg.O → 0 ≤ at2 midDraw (-1) j k ∧ at2 midDraw (-1) j k < (cfg.M : Int)) ∧
+  (∀ j, j < cfg.J → ∀ k, k < cfg.O → 1 ≤ at2 durDraw (-1) j k ∧ at2 durDraw (-1) j k ≤ (cfg.D : Int)) ∧
+  (∀ j, j < cfg.J → 1 ≤ numOps.getD j 0 ∧ numOps.getD j 0 ≤ (cfg.O : Int))
+
+instance (cfg : Cfg) (a b : List (List Int)) (c : List Int) : Decidable (validGenDraw cfg a b c) := by
+  unfold validGenDraw; infer_instance
+
+/-- job `j` consists of exactly `p` real ops (machine of the shop, duration in `[1, D]`, still to be scheduled)
+followed by padding (−1, −1, not to be scheduled) -/
+def JobRowOK (cfg : Cfg) (s : State) (j p : Nat) : Prop :=
+  ∀ k, k < cfg.O →
+    (k < p → 0 ≤ s.midAt j k ∧ s.midAt j k < (cfg.M : Int) ∧ 1 ≤ s.durAt j k ∧ s.durAt j k ≤ (cfg.D : Int) ∧
+      s.maskAt j k = true) ∧
+    (p ≤ k → s.midAt j k = -1 ∧ s.durAt j k = -1 ∧ s.maskAt j k = false)
+
+instance (cfg : Cfg) (s : State) (j p : Nat) : Decidable (JobRowOK cfg s j p) := by unfold JobRowOK; infer_instance
+
+/-- generator certificate, evaluated on the implementation's reset states: shapes; every job has between 1 and
+`max_num_ops` real ops followed by padding, durations of real ops in `[1, max_op_duration]`, machine ids in
+`[0, num_machines)`, `ops_mask` true exactly on the real ops; `machines_job_ids` all no-op, remaining times 0,
+`scheduled_times` all −1, clock 0; the action mask of `reset` is the legality table of the rules -/
+def GenCert (cfg : Cfg) (s : State) : Prop :=
+  Shaped cfg s ∧ (∀ j, j < cfg.J → ∃ p, p < cfg.O + 1 ∧ 1 ≤ p ∧ JobRowOK cfg s j p) ∧
+  s.mjob = List.replicate cfg.M (cfg.J : Int) ∧ s.mrem = List.replicate cfg.M 0 ∧
+  s.sched = List.replicate cfg.J (List.replicate cfg.O (-1)) ∧ s.stepCount = 0 ∧
+  s.amask = legalTable cfg s
+
+instance (cfg : Cfg) (s : State) : Decidable (GenCert cfg s) := by unfold GenCert; infer_instance
+
+/-- `ToyGenerator`: the hard-coded instance (5 jobs, 4 machines, ≤ 4 ops, durations ≤ 4) -/
+def toyCfg : Cfg := ⟨5, 4, 4, 4⟩
+def toyMid : List (List Int) := [[2, 3, 1, 2], [3, 2, 0, -1], [1, 3, -1, -1], [0, 3, 0, 0], [1, 0, 1, -1]]
+def toyDur : List (List Int) := [[2, 2, 1, 2], [2, 4, 1, -1], [2, 3, -1, -1], [4, 1, 1, 1], [3, 1, 2, -1]]
+/-- the state `reset` returns for `ToyGenerator` -/
+def toyState : State := initState toyCfg toyMid toyDur
+/-- the action sequence of `test_job_shop__toy_generator_reward` (5 = no-op), documented to reach the optimal
+makespan 8 -/
+def toyActions : List (List Int) :=
+  [[3, 4, 0, 1], [5, 5, 5, 5], [5, 5, 1, 0], [5, 2, 5, 5], [4, 5, 5, 3], [3, 0, 5, 2], [1, 4, 0, 5], [3, 5, 5, 5]]
+
 end JobShop
